@@ -157,6 +157,10 @@ pub fn check_model(p: &StructProg, text: &str) -> Vec<String> {
     let mut out = vec![];
     let mut seen: BTreeMap<(String, Option<String>), u64> = BTreeMap::new();
     for a in &m.top.assertions {
+        // "whenever the generated module compiles": the checks are unconditional items
+        if !a.attrs.is_empty() {
+            out.push(format!("layout assertion for {}.{:?} is conditional: {}", a.struct_name, a.field, a.attrs.join(" ")));
+        }
         if seen.insert((a.struct_name.clone(), a.field.clone()), a.expected).is_some() {
             out.push(format!("duplicate assertion for {}.{:?}", a.struct_name, a.field));
         }
